@@ -18,10 +18,12 @@ import string as S
 import common
 import paths
 import pyfacts
+import srcobl
 import values
 
 ID = 'C19'
-LEAN_MODULES = ['Yaql.Props.C19', 'Yaql.Props.C19Regex', 'Yaql.Props.C19Exec', 'Yaql.Props.C19Gen']
+LEAN_MODULES = ['Yaql.Props.C19', 'Yaql.Props.C19Regex', 'Yaql.Props.C19Exec', 'Yaql.Props.C19Gen'] + \
+    srcobl.modules('C19')        # Props/SrcStrings: the model functions equal the translation of the current source
 REQUIRED_THEOREMS = [
     'Yaql.Props.C19.split_join', 'Yaql.Props.C19.join_split', 'Yaql.Props.C19.substring_spec',
     'Yaql.Props.C19.indexOf_spec', 'Yaql.Props.C19.lastIndexOf_spec', 'Yaql.Props.C19.trim_idem',
@@ -30,7 +32,7 @@ REQUIRED_THEOREMS = [
     'Yaql.Props.C19Regex.searchAll_disjoint_ordered', 'Yaql.Props.C19Regex.split_matches_reassemble',
     'Yaql.Props.C19Regex.replace_splice', 'Yaql.Props.C19Regex.publish_binds',
     'Yaql.Props.C19Exec.execMatcher_sane',
-]
+] + srcobl.theorems('C19')
 TRUSTED = ["CPython's str methods and `re` (differentially tested against the Lean model, not verified)",
            'rendering of generated regex ASTs / replacement templates / selectors to text (harness)',
            'generated tables Yaql/Gen/StrTables.lean: whitespace class, string-module constants, re.escape set, '
@@ -42,7 +44,65 @@ ASSUMPTIONS = ['arguments are well typed (strings, ints, null where the signatur
 
 
 def generate():
-    return pyfacts.run(['StrTables'])['StrTables']
+    info = dict(pyfacts.run(['StrTables'])['StrTables'])
+    info.update(srcobl.generate('C19'))       # re-translate strings.py (harness/py2lean.py -> Gen/SrcStrings.lean)
+    return info
+
+
+# how a translated function of strings.py is reached from a yaql expression: (case function, argument builder)
+SRC_CASE = {
+    'substring': ('substring', lambda s, st, ln: [s, st, ln]),
+    'index_of': ('indexOf', lambda s, sub, st: [s, sub, st]),
+    'index_of4': ('indexOf', lambda s, sub, st, ln: [s, sub, st, ln]),
+    'last_index_of': ('lastIndexOf', lambda s, sub, st: [s, sub, st]),
+    'last_index_of4': ('lastIndexOf', lambda s, sub, st, ln: [s, sub, st, ln]),
+    'trim': ('trim', lambda s, ch: [s, ch]),
+    'trim_left': ('trimLeft', lambda s, ch: [s, ch]),
+    'trim_right': ('trimRight', lambda s, ch: [s, ch]),
+    'norm': ('norm', lambda s, ch: [s, ch]),
+    'is_empty': ('isEmpty', lambda s, t, ch: [s, t, ch]),
+    'replace': ('replace', lambda s, o, n, c: [s, o, n, c]),
+    'replace_with_dict': ('replaceDict', lambda s, f, d, c: [s, d, c]),
+    'join': ('join', lambda seq, sep, f: [list(seq), sep]),
+    'join2': ('join_', lambda sep, seq, f: [sep, list(seq)]),
+    'split': ('split', lambda s, sep, k: [s, sep, k]),
+    'right_split': ('rightSplit', lambda s, sep, k: [s, sep, k]),
+    'in_': ('in', lambda a, b: [a, b]),
+    'starts_with': ('startsWith', lambda s, ps: [s] + list(ps)),
+    'ends_with': ('endsWith', lambda s, ps: [s] + list(ps)),
+    'concat': ('concat', lambda args: list(args)),
+    'len_': ('len', lambda s: [s]),
+    'to_char_array': ('toCharArray', lambda s: [s]),
+    'str_': ('str', lambda v: [v]),
+    'string_by_int': ('*', lambda s, n, engine: [s, n]),
+    'int_by_string': ('*', lambda n, s, engine: [n, s]),
+}
+
+
+def src_oracle(t, pyargs, real):
+    """a candidate input from the source-level differential (the current source of `t` disagrees with the model on
+    it), judged by the property's own oracle: the yaql expression that reaches the function, evaluated by the real
+    engine, against the transcription of the documented meaning"""
+    spec = SRC_CASE.get(t.name)
+    if spec is None:
+        return None
+    c = dict(f=spec[0], a=spec[1](*pyargs), form=0)
+    if c['f'] in ('startsWith', 'endsWith') and len(c['a']) < 2:
+        return None
+    try:
+        j = judge(c, None)
+    except Exception:     # the case cannot be spelled as an expression (e.g. an integer beyond the literal grammar)
+        return None
+    if j is not None and j[0] == 'oracle':
+        try:
+            small = shrink(c, None, 'oracle', j[2])
+            j2 = judge(small, None)
+            if j2 is not None and j2[0] == 'oracle':
+                c, j = small, j2
+        except Exception:
+            pass
+        return j[2], j[1] + '  [found through the source-level differential of %s]' % t.qual, c
+    return None
 
 
 # ------------------------------------------------------------------ oracle: strings.py by its docstrings
@@ -1109,6 +1169,9 @@ def run(env, res):
                 'random patterns of the generated family, each under all 8 flag combinations, random selectors over '
                 'every published variable.  distinct = distinct (function, arguments, spelling); non-trivial = the '
                 'subject string is not empty')
+    if env['replay'] and 'src_target' in (json.load(open(env['replay'])).get('case') or {}):
+        srcobl.differential(env, res, 'C19', oracle=src_oracle)
+        return res
     if env['replay']:
         rp = json.load(open(env['replay']))
         cases = [rp['case']]
@@ -1201,6 +1264,9 @@ def run(env, res):
             small = shrink(c, drv, kind, key)
             j = judge(small, drv, kind)
             res.fail(kind, key, j[1] if j else describe(c, real, orc, mod), small)
+    if not env['replay']:
+        # source-level differential: real function vs its Lean translation vs the model expression of the theorem
+        srcobl.differential(env, res, 'C19', oracle=src_oracle)
     _close_side_pools()
     res.extra['naming_conventions_and_creation_orders'] = convs
     res.extra['function_histogram'] = hist
